@@ -22,6 +22,9 @@ type (
 		// ElemT: Go element type, when known and structured (spec-function parameters and
 		// binders declared as []T): indexing then yields a typed value instead of a bare term
 		ElemT types.Type
+		// BN: byte length of a binder / spec parameter declared with a named array type; used only
+		// for byte-string views (equality of such binders stays equality of the array terms)
+		BN int64
 	}
 	// SliceV is a view on a region cell.
 	SliceV struct {
